@@ -5,6 +5,7 @@ import (
 	"strconv"
 	"strings"
 	"sync"
+	"time"
 
 	"go.dedis.ch/onet/v3"
 	"go.dedis.ch/onet/v3/network"
@@ -184,11 +185,23 @@ func c12walk(ro *onet.Roster, t *onet.Tree, w c12want) (string, string, bool) {
 	return "", "", false
 }
 
+// c12bigTimeout is generous: a tree of 2000 nodes takes milliseconds.
+func c12bigTimeout(nodes int) time.Duration {
+	return 3*time.Second + time.Duration(nodes)*5*time.Millisecond
+}
+
 func c12exec(c *h.Ctx, cs *h.Case) {
 	outs := map[string]int{}
+	hung := false
 	for _, op := range cs.Ops {
 		tk := strings.Fields(op)
 		obs := "bad-op"
+		if hung {
+			// a generator call of this case never returned (its goroutine is still spinning): the
+			// rest of the case is not run
+			cs.Impl = append(cs.Impl, "not-run")
+			continue
+		}
 		func() {
 			defer func() {
 				if r := recover(); r != nil {
@@ -310,7 +323,24 @@ func c12exec(c *h.Ctx, cs *h.Case) {
 					return
 				}
 				ro := c12roster(hosts)
-				t := ro.GenerateBigNaryTree(N, nodes)
+				// watchdog: the generator has loops whose termination is part of the property
+				var t *onet.Tree
+				done := make(chan interface{}, 1)
+				go func() {
+					defer func() { done <- recover() }()
+					t = ro.GenerateBigNaryTree(N, nodes)
+				}()
+				select {
+				case r := <-done:
+					if r != nil {
+						panic(r)
+					}
+				case <-time.After(c12bigTimeout(nodes)):
+					obs = "hang"
+					hung = true
+					cs.Fail("big-hang", "GenerateBigNaryTree did not return — "+op)
+					return
+				}
 				if t == nil {
 					obs = "none"
 				} else {
